@@ -32,6 +32,9 @@ constructor-derived attributes (a marker's prepared pattern) read as their defin
 
 Round 5: methods of the Any placeholder are read through their definitions; the Int._compile
 codec rule (C05 a, b) is included because a fixed Int is rendered by the field's own pack.
+
+Round 6: no fabricated parse context (k['raw']) for user callables; an escaped text inserted as
+a literal; parked size resolvers are scanned.
 """
 import ast
 
